@@ -1,6 +1,6 @@
 import BpModel.All
 import BpProofs.RtFlat
-import BpProofs.RtNested
+import BpProofs.RtMain
 import BpProofs.Props.C06
 /-
   C01 — binary round trip: parse(bytes(m)) reproduces m for every message value.
@@ -22,19 +22,28 @@ import BpProofs.Props.C06
       decoder-state invariant `GI`;
     * the assembly lemma `roundtrip_of_steps` is generic: ANY field kind for which "decoding
       the bytes of the slot restores the slot" (`SlotStep`) is shown joins the theorem.
-    * nested and recursive messages (`roundtrip_nested_partial`): the full statement for ALL
-      schemas and ALL well-typed values `MsgOk` whose fields are flat (as above) or
-      message-typed — singular, proto3-optional, oneof member or repeated sub-messages of any
-      class of the schema, to any depth, including recursive classes — by induction on the
-      nesting fuel of the decoder (= the length of the input; the payload of a nested
-      record is strictly shorter than the record). The decoded value is related to the
-      original by `ValEqv`: same class, oneof selection and unknown fields at every level,
-      `serialized_on_wire` set, and slot-wise an equivalent value or, where the slot emitted
-      no byte, the unset default.
-  MISSING (named, not proved): `SlotStep` for map fields, Timestamp / Duration and wrapper
-    fields (their payloads are flat two-field / one-field messages decoded through the same
-    nested loader). Those are covered by the differential correspondence and the oracle of
-    this check.
+    * every field kind (`roundtrip_nested_partial`): the full statement for ALL schemas and ALL
+      well-typed values `MsgOk` (BpProofs/NestedDefs.lean) whose fields are
+        - flat (as above),
+        - message-typed: singular, proto3-optional, oneof member or repeated sub-messages of
+          any class of the schema, to any depth, including recursive classes,
+        - Timestamp / Duration (singular, optional or oneof member; datetime / timedelta in
+          the protobuf-valid range),
+        - wrappers (`Optional[scalar]`, singular or oneof member),
+        - maps with integer / bool / string keys and scalar or message values,
+      by strong induction on the nesting fuel of the decoder (= the length of the input; the
+      payload of a nested record is strictly shorter than the record). The decoded value is
+      related to the original by `ValEqv` (BpProofs/Eqv.lean): same class, oneof selection
+      and unknown fields at every level, `serialized_on_wire` set, and slot-wise an
+      equivalent value or, where the slot emitted no byte, the unset default. `ValEqv`
+      identifies exactly three things Python's `==` identifies too: `-0.0` with `+0.0`
+      inside a wrapper (the wrapper class has implicit presence), and a map VALUE message
+      that encodes to nothing with the fresh instance of its class.
+  MISSING (named, not proved): repeated Timestamp / Duration / wrapper fields, maps whose
+    values are Timestamp / Duration; that every `MsgOk` value CAN be encoded (`dumpVal`
+    succeeds — the theorem takes the encoding as a hypothesis; for scalars this is
+    `scalar_encodable`). Those are covered by the differential correspondence and the
+    oracle of this check.
 -/
 namespace Bp.C01
 open Bp Gen
@@ -179,12 +188,13 @@ theorem roundtrip_flat_partial (S : Schema) (c : Nat) (d : MsgD) (hd : S[c]? = s
   | dict ks vs => simp [flatSlotOk, scalarOk] at hok
   | msg c' sl' ow' unk' cur' => simp [flatSlotOk, scalarOk] at hok
 
-/-- **message level, nested and recursive messages** — `MsgOk` (BpProofs/NestedDefs.lean)
-    is the well-typedness of a reachable message value: at every nesting level distinct
-    in-range field numbers, the oneof invariant of C07, every slot well-typed for its field
-    (flat as in `roundtrip_flat_partial`, or unset / None / a well-typed message / a list
-    of well-typed messages for a message-typed field), unknown fields that are raw records
-    the class does not know. -/
+/-- **message level, every field kind** — `MsgOk` (BpProofs/NestedDefs.lean) is the
+    well-typedness of a reachable message value: at every nesting level distinct in-range
+    field numbers, the oneof invariant of C07, every slot well-typed for its field (`SlotOk`:
+    flat as in `roundtrip_flat_partial`; unset / None / a well-typed message / a list of
+    well-typed messages for a message-typed field; an in-range datetime / timedelta; a
+    wrapped scalar; a dict with pairwise different well-typed keys and well-typed scalar or
+    message values), unknown fields that are raw records the class does not know. -/
 theorem roundtrip_nested_partial (S : Schema) (c : Nat) (d : MsgD) (hd : S[c]? = some d)
     (sl : List Val) (ow : Bool) (unk : Bytes) (cur : List (Option Nat))
     (hm : MsgOk S (.msg c sl ow unk cur))
